@@ -73,3 +73,25 @@ Definition nv_evs : list event :=
        1; 1; 1; 1; 1; 1;        (* primary: rcvMsg, handlePrimary, sndReplicaReqLoop x4 *)
        2; 2; 3; 3;              (* backups: rcvMsg, handleBackup *)
        1; 1; 1].                (* primary: two acks, then replicaSet empty -> sndResp *)
+
+(* a crash execution without client re-sends (corpus/C14/failover_family.json #2 run on the Go code, committed steps up to the
+   first client time-out): Put(k2,p0) fully replicated; primary 1 crashes while replicating Put(KEY1,A) after sending it to
+   replica 2 only... replica 2 applies it, takes over, synchronises replica 3 and serves three Gets of the other client *)
+Definition nr_cfg : config := mkCfg 3 2 true.
+Definition nr_input : list cmsg := [put "k2" "p0"; put "KEY1" "A"; get "KEY1"; get "KEY1"; get "k2"; get "KEY1"].
+Definition e (p : nat) (a f : bool) (k : nat) : event := Ev p (mkCh a f k).
+Definition nr_evs : list event :=
+  [e 1 false false 0; e 1 false false 0; e 2 false false 0; e 2 false false 0; e 3 false false 0; e 3 false false 0;
+   e 4 false false 0; e 4 false false 0; e 1 false false 0; e 1 false false 0; e 1 false false 0; e 1 false false 0;
+   e 1 false false 0; e 1 false false 0; e 2 false false 0; e 2 false false 0; e 2 false false 0; e 2 false false 0;
+   e 3 false false 0; e 3 false false 0; e 3 false false 0; e 3 false false 0; e 1 false false 0; e 1 false false 0;
+   e 1 true false 0; e 1 false false 0; e 1 false false 0; e 1 false false 0; e 4 false false 0; e 4 false false 0;
+   e 4 false false 0; e 1 false false 0; e 1 false false 0; e 1 false false 0; e 1 false false 0; e 2 false false 0;
+   e 2 false false 0; e 2 false false 0; e 2 false false 0; e 1 false true 0; e 1 false false 0; e 5 false false 0;
+   e 5 false false 0; e 2 false false 0; e 2 false false 0; e 2 true false 0; e 2 false false 0; e 2 false false 0;
+   e 2 false false 0; e 2 true false 1; e 3 false false 0; e 3 true false 0; e 3 false false 0; e 3 false false 0;
+   e 3 false false 0; e 3 false false 0; e 2 false false 0; e 2 false false 0; e 2 false false 0; e 2 false false 0;
+   e 2 false false 0; e 2 false false 0; e 2 false false 0; e 5 false false 0; e 5 false false 0; e 3 false false 0;
+   e 3 false false 0; e 5 false false 0; e 2 false false 0; e 2 false false 0; e 2 false false 0; e 5 false false 0;
+   e 5 false false 0; e 5 false false 0; e 2 false false 0; e 2 false false 0; e 2 false false 0; e 2 false false 0;
+   e 2 false false 0; e 5 false false 0; e 5 false false 0; e 5 false false 0].
